@@ -31,3 +31,28 @@ package cmd
 //@   requires c != nil && cmd != nil
 //@   modifies *
 //@   ensures[C19] err == nil ==> c.bytesForm == ite(c.form == "bin", 0, ite(c.form == "hex", 1, ite(c.form == "base64", 3, 4))) && (c.form == "bin" || c.form == "hex" || c.form == "base64" || c.form == "auto")
+
+// C01 (authentic at the caller's verification time, against the caller's roots): the three validating commands hand the
+// library the root of trust built by rootOfTrust from --root_cert, the backend's verification time, and the endorsement
+// given on the command line (or none) - nothing else.
+//@ func (*tdxValidateCommand).runE
+//@   requires c != nil && cmd != nil
+//@   modifies *
+//@   atcall TdxValidate requires[C01] p2 != nil && p2.Now == backend.Now && p2.RootsOfTrust == rot && rot != nil && p2.Endorsement == c.endorsement && same(p1, c.content)
+
+//@ func (*sevValidateCommand).runE
+//@   requires c != nil && cmd != nil
+//@   modifies *
+//@   atcall SevValidate requires[C01] p2 != nil && p2.Now == backend.Now && p2.RootsOfTrust == rot && rot != nil && p2.Endorsement == c.endorsement
+
+//@ func (*verifyCommand).runE
+// (cobra runs persistentPreRunE first, which loads the endorsement unless --show_openssl_cmd style output is asked for)
+//@   requires c != nil && cmd != nil && (c.show || c.endorsement != nil)
+//@   modifies *
+//@   atcall EndorsementProto requires[C01] p1 != nil && p1.Now == backend.Now && p1.RootsOfTrust == rot && rot != nil && p0 == c.endorsement
+
+// C01: every invocation verifies the file it is given - the endorsement is read from the path argument each time.
+//@ func (*verifyCommand).persistentPreRunE
+//@   requires c != nil && cmd != nil
+//@   modifies *
+//@   ensures[C01] err == nil && !c.show ==> c.endorsement != nil && fresh(c.endorsement)
